@@ -181,6 +181,13 @@ func memPrograms(full bool) []memProg {
 		out = append(out, memProg{Exp: 5, Pre: []string{"m0", "adv3", "sweep", "m1", "adv3", "sweep"}, Threads: th})
 		out = append(out, memProg{Exp: 5, Pre: []string{"m0"}, Threads: append([][]string{{"adv3", "sweep"}}, th...)})
 	}
+	// the cleanup pass falls INTO a recomputation of an expired, not yet purged value: what was computed must
+	// still be cached afterwards (the second call of the same thread is served without computing)
+	for _, pre := range [][]string{{"m0", "adv6"}, {"m0", "adv6", "m1"}} {
+		for _, th := range [][][]string{{{"m0", "m0"}, {"sweep"}}, {{"m0"}, {"sweep"}, {"m0"}}, {{"m0", "m0"}, {"sweep", "m0"}}} {
+			out = append(out, memProg{Exp: 5, Pre: pre, Threads: th})
+		}
+	}
 	fails := [][]int{{}, {1}, {2}, {1, 2}}
 	for _, exp := range []int{0, 5} {
 		for _, f := range fails {
